@@ -78,6 +78,9 @@ func runOp(c Obj) (obs J) {
 	if !ok {
 		fail(2, "unknown op %q", name)
 	}
+	if isolatedOps[name] && os.Getenv("VERIF_CHILD") == "" {
+		return runIsolated(c)
+	}
 	defer func() {
 		if r := recover(); r != nil {
 			if he, ok := r.(harnessError); ok {
